@@ -88,33 +88,16 @@ class Interp:
         self.interesting = False
 
     def _make_pipe_source(self, cfg):
-        rfd, wfd = os.pipe()
-        rd = io.TextIOWrapper(io.BufferedReader(io.FileIO(rfd, "rb")), encoding="latin-1")
-        sizes = cfg.get("chunks") or [3]
-        data = self.data
+        from .c09 import _PipeStdin
 
-        def feed():
-            pos = i = 0
-            try:
-                while pos < len(data):
-                    n = sizes[i % len(sizes)]
-                    os.write(wfd, data[pos: pos + n])
-                    pos += n
-                    i += 1
-            except OSError:
-                pass
-            finally:
-                os.close(wfd)
-
-        th = threading.Thread(target=feed, daemon=True)
+        pipe = _PipeStdin(self.data, cfg.get("chunks") or [3])
         old = sys.stdin
         try:
-            sys.stdin = rd
+            sys.stdin = pipe
             self.src = StdinAudioSource(cfg["sr"], cfg["sw"], cfg["ch"])
         finally:
             sys.stdin = old
-        th.start()
-        self.cleanup.append(lambda: (rd.close(), th.join(5)))
+        self.cleanup.append(pipe.finish)
 
     def case(self):
         return {"cfg": self.cfg, "ops": list(self.ops)}
